@@ -91,11 +91,13 @@ type MutexObj struct {
 	holder  *Goroutine
 	readers int
 	name    string
+	vc, rvc VC // race detection: clock of the last Unlock / joined clocks of the RUnlocks
 }
 
 type OnceObj struct {
 	done    bool
 	running *Goroutine
+	vc      VC
 }
 
 // zero time.Time is 0001-01-01: -62135596800 s before the Unix epoch.
@@ -216,12 +218,18 @@ func (m *Machine) load(p PtrVal) Value {
 	if p.obj == nil {
 		panic(goPanic{msg: "nil pointer dereference"})
 	}
+	if m.race.on {
+		m.raceObj(p.obj, p.path, false)
+	}
 	return getPath(p.obj.v, p.path)
 }
 
 func (m *Machine) store(p PtrVal, v Value) {
 	if p.obj == nil {
 		panic(goPanic{msg: "nil pointer dereference (store)"})
+	}
+	if m.race.on {
+		m.raceObj(p.obj, p.path, true)
 	}
 	m.noteWrite(p.obj)
 	p.obj.v = setPath(p.obj.v, p.path, v)
